@@ -182,6 +182,7 @@ type Exec struct {
 	curStack []*State
 	anchorIdx map[*ast.IndexExpr]string
 	autoTrig [][]string
+	atStack []string
 }
 
 type resultVar struct {
